@@ -2,6 +2,7 @@ package main
 
 import (
 	"fmt"
+	"go/token"
 	"sort"
 	"strings"
 
@@ -344,6 +345,82 @@ func rulesC19(p *Prog, r *Report) {
 		}
 
 	}
+	// R19.8 the split hands out the remainder exactly ------------------------------------------
+	// SplitTotalAmountPerEpoch(total, n) gives every epoch total/n and one extra unit to some
+	// epochs; the allocations sum to the deposit only if exactly r = total % n of the n loop
+	// iterations take the +1 branch. With i running over [0, n) that is decided by the
+	// comparison alone (finite orderings): i >= n-r or i < r, nothing else.
+	r.Rule("R19.8", "SplitTotalAmountPerEpoch: exactly total%n epochs receive the extra unit", 1)
+	{
+		split := p.MustFunc("x/rewards/keeper.SplitTotalAmountPerEpoch")
+		if len(split.Params) == 2 {
+			total, n := ssa.Value(split.Params[0]), ssa.Value(split.Params[1])
+			isRem := func(v ssa.Value) bool {
+				bo, ok := v.(*ssa.BinOp)
+				return ok && bo.Op == token.REM && bo.X == total && bo.Y == n
+			}
+			isNminusR := func(v ssa.Value) bool {
+				bo, ok := v.(*ssa.BinOp)
+				return ok && bo.Op == token.SUB && bo.X == n && isRem(bo.Y)
+			}
+			plusOne := func(b *ssa.BasicBlock) bool {
+				for _, in := range b.Instrs {
+					if st, ok := in.(*ssa.Store); ok {
+						if bo, ok := st.Val.(*ssa.BinOp); ok && bo.Op == token.ADD {
+							for _, o := range []ssa.Value{bo.X, bo.Y} {
+								if k, ok := o.(*ssa.Const); ok && k.Value != nil && k.Value.ExactString() == "1" {
+									return true
+								}
+							}
+						}
+					}
+				}
+				return false
+			}
+			for _, b := range split.Blocks {
+				ifi, ok := b.Instrs[len(b.Instrs)-1].(*ssa.If)
+				if !ok {
+					continue
+				}
+				x, y, onT, onF, isCmp := p.CmpRel(ifi.Cond)
+				if !isCmp || x == nil || y == nil {
+					continue
+				}
+				// orient as  i ? B
+				var bound ssa.Value
+				if _, isPhi := x.(*ssa.Phi); isPhi && (isRem(y) || isNminusR(y)) {
+					bound = y
+				} else if _, isPhi := y.(*ssa.Phi); isPhi && (isRem(x) || isNminusR(x)) {
+					bound = x
+					onT, onF = onT.mirror(), onF.mirror()
+				} else {
+					continue
+				}
+				var rel Rel
+				switch {
+				case plusOne(b.Succs[0]) && !plusOne(b.Succs[1]):
+					rel = onT
+				case plusOne(b.Succs[1]) && !plusOne(b.Succs[0]):
+					rel = onF
+				default:
+					continue
+				}
+				r.Instance("R19.8")
+				r.FuncsSeen[fname(split)] = true
+				construct := fname(split) + " extra-unit test"
+				want := RGE
+				if isRem(bound) {
+					want = RLT
+				}
+				if rel == want {
+					r.OK("R19.8", construct, "exactly total%n iterations take the +1 branch", p.instrPos(ifi))
+				} else {
+					r.Fail("R19.8", construct, "the number of epochs that receive the extra unit is not total % n: the per-epoch allocations no longer sum to the deposit (part of it is never allocated, or more is allocated than was deposited)", p.instrPos(ifi), nil)
+				}
+			}
+		}
+	}
+
 	// R19.4 sibling agreement ----------------------------------------------------------
 	r.Rule("R19.4", "sibling farming valuations pick the oracle-priced reserve side by the same pair field", 1)
 	{
@@ -353,6 +430,7 @@ func rulesC19(p *Prog, r *Report) {
 			pos   string
 		}
 		var hits []hit
+		decided := map[string]bool{}
 		for _, fn := range p.Funcs {
 			if moduleOf(fn) != "liquidity" || p.isAuxFn(fn) || !strings.HasSuffix(fnPkgPath(fn), "/keeper") {
 				continue
@@ -363,7 +441,7 @@ func rulesC19(p *Prog, r *Report) {
 					continue
 				}
 				a := p.Atom(ifi.Cond)
-				if !a.IsCmp || a.Op != "==" || a.X == nil || a.Y == nil {
+				if !a.IsCmp || (a.Op != "==" && a.Op != "!=") || a.X == nil || a.Y == nil {
 					continue
 				}
 				tx, fx, _, okx := fieldRead(a.X)
@@ -383,7 +461,97 @@ func rulesC19(p *Prog, r *Report) {
 				if pairField != "QuoteCoinDenom" && pairField != "BaseCoinDenom" {
 					continue
 				}
+				// the amount selected on each edge belongs to the side the test establishes
+				eq := a.Op == "=="
+				if a.Neg {
+					eq = !eq
+				}
+				matchSucc, otherSucc := b.Succs[0], b.Succs[1]
+				if !eq {
+					matchSucc, otherSucc = otherSucc, matchSucc
+				}
+				sideOf := func(v ssa.Value) string {
+					side := ""
+					for _, o := range p.Origins(v) {
+						if o.Kind != "call" || len(o.Path) == 0 || o.Path[len(o.Path)-1] != "Amount" || calleeShortName(o.Call.Common()) != "NewCoin" {
+							return ""
+						}
+						args := o.Call.Common().Args
+						if len(args) == 0 {
+							return ""
+						}
+						t, f, _, ok := fieldRead(args[0])
+						if !ok || t != "Pair" || (side != "" && side != f) {
+							return ""
+						}
+						side = f
+					}
+					return side
+				}
+				opposite := map[string]string{"QuoteCoinDenom": "BaseCoinDenom", "BaseCoinDenom": "QuoteCoinDenom"}
+				edgeFrom := func(join, pred *ssa.BasicBlock) *ssa.BasicBlock {
+					// which successor of the test the phi edge from pred belongs to
+					if pred == b {
+						if matchSucc == join {
+							return matchSucc
+						}
+						return otherSucc
+					}
+					if matchSucc == pred || matchSucc.Dominates(pred) {
+						return matchSucc
+					}
+					if otherSucc == pred || otherSucc.Dominates(pred) {
+						return otherSucc
+					}
+					return nil
+				}
+				decidedHere := false
+				for _, jb := range fn.Blocks {
+					for _, jin := range jb.Instrs {
+						ph, isPhi := jin.(*ssa.Phi)
+						if !isPhi || len(ph.Edges) != 2 {
+							continue
+						}
+						if !(b.Dominates(jb)) {
+							continue
+						}
+						s0, s1 := sideOf(ph.Edges[0]), sideOf(ph.Edges[1])
+						if s0 == "" || s1 == "" {
+							continue
+						}
+						e0, e1 := edgeFrom(jb, jb.Preds[0]), edgeFrom(jb, jb.Preds[1])
+						if e0 == nil || e1 == nil || e0 == e1 {
+							continue
+						}
+						r.Instance("R19.4")
+						decidedHere = true
+						r.FuncsSeen[fname(fn)] = true
+						construct := fmt.Sprintf("%s amount selected by %s test", fname(fn), pairField)
+						want := map[*ssa.BasicBlock]string{matchSucc: pairField, otherSucc: opposite[pairField]}
+						if s0 == want[e0] && s1 == want[e1] {
+							r.OK("R19.4", construct, "the amount of the priced side is valued", p.instrPos(ifi))
+						} else {
+							r.Fail("R19.4", construct, "where the test establishes that the priced asset is one coin of the pair, the amount of the other coin is valued at its price: farmed value and with it the pro-rata shares are computed from the wrong reserve side", p.instrPos(ifi), nil)
+						}
+					}
+				}
 				hits = append(hits, hit{fname(fn), pairField, p.instrPos(ifi)})
+				if decidedHere {
+					decided[p.instrPos(ifi)] = true
+				}
+			}
+		}
+		// a site whose selection was decided on its own needs no agreement with its siblings
+		// (a correct test on the other field is the same selection)
+		{
+			var undec []hit
+			for _, h := range hits {
+				if !decided[h.pos] {
+					undec = append(undec, h)
+				}
+			}
+			if len(undec) == 0 {
+				hits = nil
 			}
 		}
 		fields := map[string]bool{}
